@@ -132,7 +132,7 @@ end prims
 /-! ### automation -/
 
 attribute [local irreducible] readint readnat read64 u32 ubyte ubytes payload guarded peek chk get getRange adv getSt modSt
-  pushLookup expect fail loopN collectN ensure
+  pushLookup expect fail loopN collectN ensure refGuard
 
 /-- close a goal `SatAt … m` for an atomic `m` -/
 syntax "sat_atom" : tactic
@@ -149,6 +149,9 @@ macro_rules
   | `(tactic| sat_atom) => `(tactic| first
       | exact sat_pure | exact sat_fail | exact sat_getSt | exact sat_modSt | exact sat_pushLookup | exact sat_expect
       | exact sat_chk _
+      | exact sat_refGuard ‹Cfg.refChecked _ = true›
+      | exact sat_refGuard ‹Cfg.envRefChecked _ = true›
+      | exact sat_refGuard ‹Cfg.defRefChecked _ = true›
       | exact sat_ensure ‹Sites.ok _ = true›
       | exact sat_weaken (sat_adv1 (r := 0)) (Nat.le_refl _) (by omega) (by omega)
       | exact sat_weaken (sat_readint (r := 0) ‹Sites.ok _ = true›) (Nat.le_refl _) (by omega) (by omega)
@@ -174,7 +177,8 @@ macro_rules
       | split)
 
 section bodies
-variable {C : Cfg} (hS : C.sites.ok = true) {P : Fns}
+variable {C : Cfg} (hS : C.sites.ok = true) (hR1 : C.refChecked = true) (hR2 : C.envRefChecked = true)
+  (hR3 : C.defRefChecked = true) {P : Fns}
 include hS
 
 theorem sat_symEntry {lo dd : Nat} (hP : Good b.size af P lo) (hd : lo ≤ dd + 1) :
@@ -182,6 +186,7 @@ theorem sat_symEntry {lo dd : Nat} (hP : Good b.size af P lo) (hd : lo ≤ dd + 
   unfold symEntry
   repeat' sat_step
 
+include hR2 in
 theorem sat_envBody {dd : Nat} (hone : ∀ p r, SatAt b.size af p r 1 (P.one dd)) :
     SatAt b.size af p r 1 (envBody C b P dd) := by
   obtain ⟨_, _, _, _, _, h6, _⟩ := sites_facts hS
@@ -192,6 +197,7 @@ theorem sat_envBody {dd : Nat} (hone : ∀ p r, SatAt b.size af p r 1 (P.one dd)
   · refine sat_bind0 sat_modSt (fun _ => ?_)
     repeat' (first | exact sat_weaken (hone _ 0) (Nat.le_refl _) (by omega) (by omega) | sat_step)
 
+include hR3 in
 theorem sat_defBody {dd : Nat} (hP : C.guardDepth < dd ∨ Good b.size af P (dd + 1)) :
     SatAt b.size af p r 1 (defBody C b P dd) := by
   obtain ⟨_, _, _, _, _, _, _, h8, _⟩ := sites_facts hS
@@ -248,6 +254,7 @@ theorem sat_abstractBody {dd : Nat} (hP : Good b.size af P (dd + 1)) : SatAt b.s
   unfold abstractBody
   repeat' (first | exact hpeg _ _ | exact hchan _ _ | sat_step)
 
+include hR1 in
 theorem sat_containerBody {dd lead : Nat} (hP : Good b.size af P (dd + 1)) :
     SatAt b.size af p r 1 (containerBody C b P dd lead) := by
   unfold containerBody
@@ -257,6 +264,7 @@ theorem sat_bytesBody {lead : Nat} : SatAt b.size af p r 1 (bytesBody C b lead) 
   unfold bytesBody
   repeat' sat_step
 
+include hR1 in
 theorem sat_oneBody {dd : Nat} (hP : C.guardDepth < dd ∨ Good b.size af P (dd + 1)) :
     SatAt b.size af p r 1 (oneBody C b P dd) := by
   obtain ⟨_, _, _, _, _, _, _, _, h9, _⟩ := sites_facts hS
@@ -271,7 +279,7 @@ theorem sat_oneBody {dd : Nat} (hP : C.guardDepth < dd ∨ Good b.size af P (dd 
     have habs : ∀ p', SatAt b.size af p' 0 0 (abstractBody C b P dd) :=
       fun _ => sat_weaken (sat_abstractBody hS hP (r := 0)) (Nat.le_refl _) (Nat.le_refl _) (by omega)
     have hcon : ∀ p' l, SatAt b.size af p' 0 0 (containerBody C b P dd l) :=
-      fun _ _ => sat_weaken (sat_containerBody hS hP (r := 0)) (Nat.le_refl _) (Nat.le_refl _) (by omega)
+      fun _ _ => sat_weaken (sat_containerBody hS hR1 hP (r := 0)) (Nat.le_refl _) (Nat.le_refl _) (by omega)
     have hbyt : ∀ p' l, SatAt b.size af p' 0 0 (bytesBody C b l) :=
       fun _ _ => sat_weaken (sat_bytesBody hS (r := 0)) (Nat.le_refl _) (Nat.le_refl _) (by omega)
     refine sat_peek_bind h9 (fun lead => ?_)
@@ -284,7 +292,7 @@ end bodies
 /-- fuel that suffices for `one` / `def` at recursion depth `d` (`env` needs one more) -/
 def mu (G d : Nat) : Nat := 2 * (G + 2 - d) + 1
 
-theorem fns_sat {C : Cfg} (hS : C.sites.ok = true) (b : Array Nat) (af : Bool) : ∀ (f : Nat),
+theorem fns_sat {C : Cfg} (hS : C.sites.ok = true) (hR : C.refsChecked = true) (b : Array Nat) (af : Bool) : ∀ (f : Nat),
     (∀ d, (af = false → mu C.guardDepth d ≤ f) → ∀ p r, SatAt b.size af p r 1 ((fns C b f).one d)) ∧
     (∀ d, (af = false → mu C.guardDepth d ≤ f) → ∀ p r, SatAt b.size af p r 1 ((fns C b f).def_ d)) ∧
     (∀ d, (af = false → mu C.guardDepth d + 1 ≤ f) → ∀ p r, SatAt b.size af p r 1 ((fns C b f).env d))
@@ -298,7 +306,11 @@ theorem fns_sat {C : Cfg} (hS : C.sites.ok = true) (b : Array Nat) (af : Bool) :
     · exact sat_outOfFuel (haf _ (by unfold mu at h; exact h))
     · exact sat_outOfFuel (haf _ h)
   | f + 1 => by
-    obtain ⟨ih1, ih2, ih3⟩ := fns_sat hS b af f
+    obtain ⟨ih1, ih2, ih3⟩ := fns_sat hS hR b af f
+    have hR' := hR
+    unfold Cfg.refsChecked at hR'
+    simp only [Bool.and_eq_true] at hR'
+    obtain ⟨⟨hR1, hR2⟩, hR3⟩ := hR'
     have good : ∀ d, d ≤ C.guardDepth → (af = false → mu C.guardDepth d ≤ f + 1) → Good b.size af (fns C b f) (d + 1) := by
       intro d hd h
       refine ⟨fun d' hd' => ih1 d' ?_, fun d' hd' => ih2 d' ?_, fun d' hd' => ih3 d' ?_⟩ <;>
@@ -306,24 +318,25 @@ theorem fns_sat {C : Cfg} (hS : C.sites.ok = true) (b : Array Nat) (af : Bool) :
     refine ⟨fun d h p r => ?_, fun d h p r => ?_, fun d h p r => ?_⟩
     · show SatAt b.size af p r 1 (oneBody C b (fns C b f) d)
       by_cases hd : C.guardDepth < d
-      · exact sat_oneBody hS (Or.inl hd)
-      · exact sat_oneBody hS (Or.inr (good d (by omega) h))
+      · exact sat_oneBody hS hR1 (Or.inl hd)
+      · exact sat_oneBody hS hR1 (Or.inr (good d (by omega) h))
     · show SatAt b.size af p r 1 (defBody C b (fns C b f) d)
       by_cases hd : C.guardDepth < d
-      · exact sat_defBody hS (Or.inl hd)
-      · exact sat_defBody hS (Or.inr (good d (by omega) h))
+      · exact sat_defBody hS hR3 (Or.inl hd)
+      · exact sat_defBody hS hR3 (Or.inr (good d (by omega) h))
     · show SatAt b.size af p r 1 (envBody C b (fns C b f) d)
-      exact sat_envBody hS (fun p' r' => ih1 d (by intro haf; have := h haf; omega) p' r')
+      exact sat_envBody hS hR2 (fun p' r' => ih1 d (by intro haf; have := h haf; omega) p' r')
 
 /-- **unmarshal_total_inbounds**: for EVERY byte array and every fuel, when each extracted `MARSH_EOS` offset dominates the
-    reads made under it, the byte-level model never reads at an index outside the input; a successful run consumes at
+    reads made under it and the three reference-table indices are tested, the byte-level model never reads at an index outside
+    the input or a reference table; a successful run consumes at
     least one byte and stops inside the input. -/
-theorem unmarshal_total_inbounds_generic (C : Cfg) (hS : C.sites.ok = true) (b : Array Nat) (fuel : Nat) :
+theorem unmarshal_total_inbounds_generic (C : Cfg) (hS : C.sites.ok = true) (hR : C.refsChecked = true) (b : Array Nat) (fuel : Nat) :
     match unmarshal C b fuel with
     | .oob _ => False
     | .ok _ c => 0 < c.pos ∧ c.pos ≤ b.size
     | _ => True := by
-  have h := ((fns_sat hS b true fuel).1 0 (by intro h; cases h) 0 0).run { pos := 0, st := {} } (Nat.le_refl _) (by simp)
+  have h := ((fns_sat hS hR b true fuel).1 0 (by intro h; cases h) 0 0).run { pos := 0, st := {} } (Nat.le_refl _) (by simp)
   unfold unmarshal
   cases hr : (fns C b fuel).one 0 { pos := 0, st := {} } with
   | ok a c => rw [hr] at h; exact ⟨by have := h.1; simp at this; omega, h.2⟩
@@ -334,9 +347,9 @@ theorem unmarshal_total_inbounds_generic (C : Cfg) (hS : C.sites.ok = true) (b :
 /-- **unmarshal_terminates**: `fuelBound` levels of recursion are enough for every input — the recursion depth of the C is
     bounded by `JANET_RECURSION_GUARD`, every loop of the model is a bounded `for`, and the frame loop of
     `unmarshal_one_fiber` consumes input on every iteration. -/
-theorem unmarshal_terminates_generic (C : Cfg) (hS : C.sites.ok = true) (b : Array Nat) (fuel : Nat)
+theorem unmarshal_terminates_generic (C : Cfg) (hS : C.sites.ok = true) (hR : C.refsChecked = true) (b : Array Nat) (fuel : Nat)
     (hf : fuelBound C ≤ fuel) : ∀ a, unmarshal C b fuel ≠ .fuel ∧ unmarshal C b fuel ≠ .oob a := by
-  have h := ((fns_sat hS b false fuel).1 0 (by intro _; unfold mu; unfold fuelBound at hf; omega) 0 0).run
+  have h := ((fns_sat hS hR b false fuel).1 0 (by intro _; unfold mu; unfold fuelBound at hf; omega) 0 0).run
     { pos := 0, st := {} } (Nat.le_refl _) (by simp)
   unfold unmarshal
   intro a
